@@ -398,10 +398,11 @@ func c42Line(c *Case, l *c42Listener, line string, f []string) string {
 		if conn == nil {
 			return "err:closed"
 		}
+		before := time.Now() // taken BEFORE the close: the server cannot arm its timer earlier than this
 		_ = conn.Close()
 		delete(l.conns, n)
 		if len(l.conns) == 0 {
-			l.lastZero = time.Now()
+			l.lastZero = before
 			l.zeroMs = l.curMs
 		}
 		c.Stat("close")
